@@ -577,10 +577,54 @@ def check_mutable_defaults(repo, chk, prefixes, rule="L6-default"):
         raise AnalysisError("%s: no mutable default argument found under %s (the rule would pass vacuously)" % (rule, prefixes))
 
 
+_ORDER_BLIND = {"sum", "set", "frozenset", "dict", "any", "all", "max", "min", "len", "sorted", "join", "reduce_sum", "add_n", "reduce_max", "reduce_min", "reduce_prod", "update", "Counter"}
+
+
+def _positional_product(x, parent_):
+    """does this traversal produce (or consume) a sequence whose k-th entry is tied to the k-th entry traversed?
+    - a list comprehension / a generator handed to list(), tuple(), an array constructor ... unless the result goes
+      straight into an order-blind consumer (sum, set, dict, any, all, max, min, sorted, str.join, reduce_sum ...);
+    - a for loop that appends / extends / inserts into a list held in a local name, yields, concatenates lists, or runs
+      over enumerate(...) / zip(...) of the attribute (an index or a partner sequence is paired by position).
+    Keyed stores (d[k] = ...), accumulations (s += v) and side effects per entry are not positional."""
+    if isinstance(x, ast.comprehension):
+        comp = parent_.get(id(x))
+        if isinstance(comp, (ast.DictComp, ast.SetComp)):
+            return False
+        user = parent_.get(id(comp))
+        if isinstance(user, ast.Call) and comp in user.args:
+            f_ = user.func
+            nm = f_.attr if isinstance(f_, ast.Attribute) else f_.id if isinstance(f_, ast.Name) else ""
+            if nm in _ORDER_BLIND:
+                return False
+            if isinstance(comp, ast.GeneratorExp):
+                return True
+        elif isinstance(comp, ast.GeneratorExp):
+            return True
+        return True
+    if isinstance(x, ast.For):
+        t = norm_text(x.iter)
+        if t.startswith("enumerate(") or t.startswith("zip(") or "zip(" in t[:20]:
+            return True
+        for q_ in x.body:
+            for n_ in ast.walk(q_):
+                if isinstance(n_, (ast.Yield, ast.YieldFrom)):
+                    return True
+                if isinstance(n_, ast.Call) and isinstance(n_.func, ast.Attribute) and n_.func.attr in ("append", "extend", "insert") and isinstance(n_.func.value, (ast.Name, ast.Attribute)):
+                    return True
+                if isinstance(n_, ast.AugAssign) and isinstance(n_.op, ast.Add) and isinstance(n_.value, (ast.List, ast.ListComp, ast.Tuple)):
+                    return True
+                if isinstance(n_, ast.Assign) and isinstance(n_.value, ast.BinOp) and isinstance(n_.value.op, ast.Add) and isinstance(n_.value.right, (ast.List, ast.Tuple)):
+                    return True
+        return False
+    return False
+
+
 def check_iteration_order_agreement(repo, chk, prefixes, rule="O-iter"):
     """methods of one class that traverse the same attribute and pair the entries by position must traverse it in the
-    same order: plain (insertion) order everywhere, or sorted everywhere"""
-    chk.rule(rule, "within a class, every traversal of one and the same dict / list attribute uses the same order - insertion order everywhere or sorted(...) everywhere: two methods that pair entries by position (the k-th integral with the k-th constraint) would otherwise mix up entries that are not listed alphabetically")
+    same order: plain (insertion) order everywhere, or sorted everywhere.  Only traversals that produce or consume a
+    positional sequence count (see _positional_product)"""
+    chk.rule(rule, "within a class, every traversal of one and the same dict / list attribute that builds or consumes a positional sequence (list comprehension, append / yield loop, enumerate / zip) uses the same order - insertion order everywhere or sorted(...) everywhere: two methods that pair entries by position (the k-th integral with the k-th constraint) would otherwise mix up entries that are not listed alphabetically")
     n_attr = 0
     for rel, m in sorted(repo.mods.items()):
         if "/tests/" in rel or not any(rel.startswith(p) for p in prefixes):
@@ -596,12 +640,18 @@ def check_iteration_order_agreement(repo, chk, prefixes, rule="O-iter"):
                     if (isinstance(st_, ast.Assign) and len(st_.targets) == 1 and isinstance(st_.targets[0], ast.Name) and isinstance(st_.value, ast.Call) and not st_.value.args and not st_.value.keywords
                             and isinstance(st_.value.func, ast.Attribute) and isinstance(st_.value.func.value, ast.Attribute) and isinstance(st_.value.func.value.value, ast.Name) and st_.value.func.value.value.id == "self"):
                         alias_[st_.targets[0].id] = st_.value.func.value.attr
+                parent_ = {}
+                for q_ in ast.walk(mm.node):
+                    for c_ in ast.iter_child_nodes(q_):
+                        parent_[id(c_)] = q_
                 for x in _walk_fn(mm.node):
                     it = None
                     if isinstance(x, (ast.For, ast.comprehension)):
                         it = x.iter
                     if it is None:
                         continue
+                    if not _positional_product(x, parent_):
+                        continue   # keyed stores, reductions, displays: the order of such a traversal is immaterial
                     kind = "plain"
                     core = it
                     for _ in range(5):
